@@ -104,9 +104,10 @@ const (
 )
 
 type Net struct {
-	rt  *simhook.Runtime
-	mu  sync.Mutex
-	rng *simhook.Rand
+	names map[string]string // host names of addresses (see Alias)
+	rt    *simhook.Runtime
+	mu    sync.Mutex
+	rng   *simhook.Rand
 
 	listeners map[string]*Listener
 	servers   map[string]Server
@@ -176,6 +177,16 @@ func (n *Net) AnyDown() bool {
 	return len(n.down) > 0
 }
 
+// Alias makes name (host:port with a host name) resolve to the address canonical.
+func (n *Net) Alias(name, canonical string) {
+	n.mu.Lock()
+	if n.names == nil {
+		n.names = map[string]string{}
+	}
+	n.names[name] = canonical
+	n.mu.Unlock()
+}
+
 // SetDown forces the outcome of dials to addr (DialOK clears it).
 func (n *Net) SetDown(addr string, o DialOutcome) {
 	n.mu.Lock()
@@ -190,6 +201,10 @@ func (n *Net) SetDown(addr string, o DialOutcome) {
 // dial is the code under test's connect (task context; simhook already yielded).
 func (n *Net) dial(network, addr string, to time.Duration) (net.Conn, error) {
 	n.mu.Lock()
+	if c, ok := n.names[addr]; ok {
+		// a host name: the connection is made to (and reports as its remote address) the address it resolves to
+		addr = c
+	}
 	out := DialOK
 	srv, ok := n.servers[addr]
 	if !ok {
